@@ -210,10 +210,11 @@ func ParseBuildLabelParts(target, currentPath, subrepo string) (string, string, 
 	// Must be the abbreviated form (//pkg) or subtargets (//pkg/...), there's no : in it.
 	if strings.HasSuffix(target, "/...") {
 		return strings.TrimRight(target[2:len(target)-3], "/"), "...", ""
-	} else if idx := strings.LastIndexByte(target, '/'); idx != -1 {
+	} else if idx := strings.LastIndexByte(target, '/'); !validateTargetName(target[idx+1:]) {
+		return "", "", ""
+	} else {
 		return target[2:], target[idx+1:], subrepo
 	}
-	return target[2:], target[2:], subrepo
 }
 
 // parseBuildLabelSubrepo parses a build label that began with a subrepo symbol (either @ or ///).
@@ -222,13 +223,14 @@ func parseBuildLabelSubrepo(target, currentPath string) (string, string, string)
 	if idx == -1 {
 		// if subrepo and target are the same name, then @subrepo syntax will also suffice
 		if idx = strings.IndexByte(target, ':'); idx == -1 {
-			if idx := strings.LastIndexByte(target, '/'); idx != -1 {
-				return "", target[idx+1:], target
+			name := target[strings.LastIndexByte(target, '/')+1:]
+			if !validatePackageName(target) || !validateTargetName(name) {
+				return "", "", ""
 			}
-			return "", target, target
+			return "", name, target
 		}
 	}
-	if strings.ContainsRune(target[:idx], ':') {
+	if !validatePackageName(target[:idx]) {
 		return "", "", ""
 	}
 	pkg, name, _ := ParseBuildLabelParts(target[idx:], currentPath, "")
